@@ -79,9 +79,13 @@ func (r *Run) idealDigest(kind string, stream []*Term) []*Term {
 			}
 		}
 		k := len(r.hashes)
+		nz := make([]*Term, len(out))
 		for i := range out {
 			out[i] = c.Var(fmt.Sprintf("h%d_%d", k, i), bvSort(8))
+			nz[i] = c.Not(c.Eq(out[i], c.BV(8, 0)))
 		}
+		// an ideal digest is never the all-zero string
+		r.addPC(c.Or(nz...))
 	}
 	for _, h := range r.hashes {
 		if h.kind != kind || (conc && allConst(h.digest)) {
